@@ -91,7 +91,7 @@ class QueryLeg(Leg):
     shard = 40
 
     def observe(self, case):
-        return Q.build_and_query(case["ops"], case["queries"], caching=bool(case.get("caching")))
+        return Q.build_and_query(case["ops"], case["queries"], caching=bool(case.get("caching")), warm=bool(case.get("warm", True)))
 
     def term(self, case, obs):
         if obs is None:
@@ -157,7 +157,7 @@ class Multi(QueryLeg):
     name = "multi"
     rule = ("random mixed multigraphs (1-5 vertices, 0-7 links of the five classes, self-loops, parallel edges, some None ends and "
             "third members), every vertex asked under random direction x unknown x filter settings (incl. the FORWARD/BACKWARD "
-            "pairs the duality oracle needs); order and repetition of the answer compared; non-trivial = some vertex has >=2 links")
+            "pairs the duality oracle needs), neighbor caching on in half the cases; order and repetition of the answer compared; non-trivial = some vertex has >=2 links")
     quick_n = 250
     thorough_n = 6000
 
@@ -171,7 +171,8 @@ class Multi(QueryLeg):
                 for v in vids:
                     for d in Q.DIRS:
                         queries.append(["NB", v, d, u, f])
-            yield {"ops": ops, "queries": queries}
+            # caching on in half the cases (cold memos: the rounds of queries above then meet each other's entries)
+            yield {"ops": ops, "queries": queries, "caching": rng.random() < 0.5, "warm": False}
 
     def nontrivial(self, case, obs):
         return obs is not None and any(len(x) >= 2 for x in obs["snap"]["vlinks"])
